@@ -147,7 +147,89 @@ def replay_shape(data: dict[str, Any]) -> tuple[bool, str]:
     return bool(f), f[0][1] if f else "well formed"
 
 
+# ---------------------------------------------------------------------------
+# deep cloning: a test with several parents for one state is cloned with all its descendants
+
+CLONE_CHAIN = ["leaves..tutorial_get..implicit_both", "leaves..tutorial_finale", "leaves..tutorial_get..explicit_noop", "leaves..tutorial_get..explicit_clicked"]
+
+
+def _clone_case(depth: int, fork_at: int) -> list[str]:
+    """Real nodes of the sample suite chained artificially (as the repository's own cloning tests do): two parents
+    producing the state of the first test, ``depth`` tests below each other, optionally two dependants at one level."""
+    from avocado_i2n.cartgraph import TestGraph
+
+    graph = TestGraph()
+    net = TestGraph.parse_flat_objects("net1", "nets", params={"only_vm1": "CentOS", "only_vm2": "Win10", "only_vm3": "Ubuntu"}, unique=True)
+    parents = graph.parse_composite_nodes("normal..tutorial_gui", net)
+    if len(parents) != 2:
+        raise symx.Abort("sample suite changed: tutorial_gui has not two variants")
+    chain = [graph.parse_composite_nodes(r, net, unique=True) for r in CLONE_CHAIN[:depth]]
+    chain[0].descend_from_node(parents[0], net)
+    for a, b in zip(chain, chain[1:]):
+        b.descend_from_node(a, net)
+    levels = [[n] for n in chain]
+    parent_of = {id(chain[0]): None, **{id(b): a for a, b in zip(chain, chain[1:])}}
+    if 0 < fork_at < depth and depth < len(CLONE_CHAIN):
+        extra = graph.parse_composite_nodes(CLONE_CHAIN[depth], net, unique=True)
+        extra.descend_from_node(chain[fork_at - 1], net)
+        levels[fork_at].append(extra)
+        parent_of[id(extra)] = chain[fork_at - 1]
+    graph.parse_cloned_branches_for_node_and_object(chain[0], net, parents)
+    problems = []
+    sid = lambda n: n.prefix + "-" + n.params["shortname"]
+    for level in levels:
+        for source in level:
+            if len(source.cloned_nodes) != len(parents):
+                problems.append(f"{sid(source)} has {len(source.cloned_nodes)} clones for {len(parents)} parents of its ancestor")
+                continue
+            above = parent_of[id(source)]
+            for i, clone in enumerate(source.cloned_nodes):
+                expected = parents[i] if above is None else above.cloned_nodes[i]
+                if list(clone.setup_nodes) != [expected]:
+                    problems.append(f"clone {sid(clone)} must have exactly the parent {sid(expected)} but has {[sid(q) for q in clone.setup_nodes]}")
+                for q in clone.setup_nodes:
+                    if len(q.cloned_nodes) > 0:
+                        problems.append(f"clone {sid(clone)} depends on the retired clone source {sid(q)}, which is never run: no parent produces its state")
+                    if clone not in q.cleanup_nodes:
+                        problems.append(f"edge {sid(q)} -> {sid(clone)} is not recorded on the parent end")
+    return problems
+
+
+def _clone_factory():
+    col = common.Collector()
+    trav.install()
+
+    def fn(eng: symx.Engine) -> Any:
+        depth = 1 + eng.pick(len(CLONE_CHAIN), "clone_depth")
+        fork_at = eng.pick(3, "clone_fork_level")
+        problems = _clone_case(depth, fork_at)
+        col.count("clone_cases")
+        if depth >= 3:
+            col.count("clone_cases_deep")
+        if problems:
+            raise symx.Violation(problems[0], {"clone_case": [depth, fork_at], "class": f"C06 deep cloning depth {depth}", "problems": problems[:6]})
+        return None
+
+    def on_path(eng: symx.Engine, outcome: str, payload: Any) -> None:
+        if outcome == "violation":
+            col.violations.append((payload.what, payload.detail["class"], payload.detail))
+
+    def collect() -> Any:
+        col.functions = set(common.TRACER.seen)
+        return col
+
+    return fn, on_path, collect
+
+
+def replay_clone(data: dict[str, Any]) -> tuple[bool, str]:
+    trav.install()
+    problems = _clone_case(*data["clone_case"])
+    return bool(problems), problems[0] if problems else "well formed"
+
+
 def replay(data: dict[str, Any]) -> tuple[bool, str]:
+    if "clone_case" in data:
+        return replay_clone(data)
     if "eager" in data:
         return replay_eager(data)
     if "edges" in data:
@@ -169,8 +251,21 @@ def run(ctx: common.Context) -> None:
     for c in collected:
         for what, cls, detail in c.violations:
             ctx.report(cls, what, detail, replay_shape)
+    exhausted, stats, collected, err = symx.explore_parallel(_clone_factory, seed=ctx.seed, split_depth=2, deadline=ctx.deadline(120, 400), min_tasks=8)
+    ctx.add_stats(stats)
+    counters = common.merge_collected(ctx, collected)
+    ctx.part("deep cloning", exhausted=exhausted, paths=stats.paths, counters=counters)
+    if err:
+        ctx.note_inconclusive(err)
+    if not exhausted:
+        ctx.exhaustive = False
+    if counters.get("clone_cases_deep", 0) == 0:
+        ctx.note_inconclusive("vacuous: no cloning of a chain of three or more tests explored")
+    for c in collected:
+        for what, cls, detail in c.violations:
+            ctx.report(cls, what, detail, replay_clone)
     totals = travcheck.run_plans(ctx, plans(ctx.tier), 100 if not ctx.thorough else 700, replay_trav)
-    ctx.bounds = {"eager_menu": [f"{n} {kw}" for n, kw in EAGER_MENU + (EAGER_THOROUGH if ctx.thorough else [])], "symbolic_shape": {"nodes": _shape["K"], "edges": "every forward edge absent or based on 1 or 2 objects (solver variable)"}, **{p["name"]: p["bounds"] for p in plans(ctx.tier)}}
+    ctx.bounds = {"eager_menu": [f"{n} {kw}" for n, kw in EAGER_MENU + (EAGER_THOROUGH if ctx.thorough else [])], "deep_cloning": "a test with 2 parents for one state and chains of 1..4 tests below it, optionally two dependants at level 1 or 2 (real nodes of the sample suite, chained as the repository's cloning tests do)", "symbolic_shape": {"nodes": _shape["K"], "edges": "every forward edge absent or based on 1 or 2 objects (solver variable)"}, **{p["name"]: p["bounds"] for p in plans(ctx.tier)}}
     ctx.assumptions = ["selections come from a concrete menu of the shipped sample suite (the Cartesian parser cannot be executed on symbolic strings); other selections are outside the claim", "symbolic shape: real nodes of one parsed graph, their parsed edges removed"]
     ctx.coverage["counters"] = totals
     ctx.coverage["explanation"] = "structural oracle over graphs built by the real parsing code: concrete menu (eager), every lazily expanded graph reached under solver-chosen schedules, and a symbolic-edge family for the shared-root attachment"
